@@ -214,6 +214,9 @@ def _optimise_operator(op):
         return key_list_leaf, same_leaf
 
     equal_nodes(op)
+    if len(nodes) == 0:
+        # No sums or products in the tree: nothing to optimise
+        return op
 
     key_temp = []
     key_list_op, same_op = equal_leaves(leaves)
